@@ -132,4 +132,58 @@ theorem LinesInv_doAct (c : Cfg) (a : Act) (ha : a.forges = false) (h : LinesInv
   · simp only [Act.forges] at ha
     exact LinesInv_push _ ⟨hq, hcode, hlog⟩ (by simp [Instr.lineOK, sigOK_lit _ _ _ _ _ ha])
 
+theorem LinesInv_startRequest (c : Cfg) (ih : Nat) (requester : Src) (text : Str) (h : LinesInv c) :
+    LinesInv (final (startRequest c ih requester text)) := by
+  rw [startRequest_eq]
+  split
+  · exact LinesInv_raise _ ⟨h.qt, h.code, h.log⟩
+  · split <;> exact ⟨h.qt, h.code, h.log⟩
+
+theorem enqueueAll_QTL {log : List Ev} (sigs : List Sig) (c : Cfg) (hs : ∀ s ∈ sigs, sigOK log s)
+    (h : QTL c.L.queues c.tr log) : QTL (enqueueAll c sigs).L.queues (enqueueAll c sigs).tr log := by
+  induction sigs generalizing c with
+  | nil => exact h
+  | cons s ss ih =>
+    rw [enqueueAll_cons]
+    exact ih _ (fun x hx => hs x (List.mem_cons_of_mem _ hx)) (QTL_enqueue (hs s List.mem_cons_self) h)
+
+theorem LinesInv_inputReceived (P : Prog) (c : Cfg) (s : Sig) (rest : List Instr)
+    (hc : c.code = .inputReceived s :: rest) (hcl : s.cls = .inputReceived) (h : LinesInv c) :
+    LinesInv (final (step P c)) := by
+  have hcode := h.code
+  rw [hc, codeOK_cons] at hcode
+  cases hst : c.A.inputStack.getLast? with
+  | none =>
+    rw [step_inputReceived_empty P c s rest hc (List.getLast?_eq_none_iff.mp hst)]
+    exact LinesInv_raise _ ⟨h.qt, hcode.2, h.log⟩
+  | some r =>
+    obtain ⟨rs, hst'⟩ := List.getLast?_eq_some_iff.mp hst
+    obtain ⟨c', h1, h2, h3, h4, h5, h6, h7⟩ := step_inputReceived P c s rest rs r hc hst'
+    rw [h1, final_ok]
+    have hL : c'.L = (enqueueAll c (handoffSigs c.A.reqs rs r s.line (c.nextSid + 1))).L := congrArg (·.1) h7
+    have hT : c'.tr = (enqueueAll c (handoffSigs c.A.reqs rs r s.line (c.nextSid + 1))).tr := congrArg (·.2) h7
+    have hread : Ev.read s.line ∈ c.log := hcode.1 (by simp [Sig.carriesLine, hcl])
+    refine ⟨?_, by rw [h4, h3]; exact hcode.2, by rw [h4]; exact h.log⟩
+    rw [hL, hT, h4]
+    refine enqueueAll_QTL _ _ ?_ h.qt
+    intro x hx
+    simp only [handoffSigs, List.mem_cons] at hx
+    rcases hx with rfl | hx
+    · exact fun _ => hread
+    · have hfail : ∀ (ts : List Nat) (sid : Nat), ∀ x ∈ failSigs c.A.reqs ts sid, x.carriesLine = false := by
+        intro ts
+        induction ts with
+        | nil => intro sid x hx; cases hx
+        | cons t ts ih =>
+          intro sid x hx
+          simp only [failSigs, List.mem_cons] at hx
+          rcases hx with rfl | hx
+          · rfl
+          · exact ih _ x hx
+      exact sigOK_of_not_carries (hfail _ _ x hx)
+
+theorem lineOK_cb_of_callScr {log : List Ev} {scr : Nat} {cb : Cb} {arg : Option Nat} {key : Option Str}
+    (h : (Instr.callScr scr cb arg key).lineOK log) : (Ev.cb scr cb arg key).lineOK log := by
+  cases cb <;> cases key <;> first | trivial | exact h
+
 end Simpleline.Input
